@@ -74,10 +74,21 @@ func (r *Redirector) Redirect(w http.ResponseWriter, req *http.Request, ro authb
 	return redirectFunction(w, req, ro)
 }
 
+// isLocalRedirect reports whether a client supplied redirect target stays on
+// this site. Only path-absolute targets are honoured: anything with a scheme
+// goes elsewhere, and browsers resolve "//host" and "/\host" (and the same
+// with tabs or newlines in between, which they strip) to another host too.
+func isLocalRedirect(redir string) bool {
+	return strings.HasPrefix(redir, "/") &&
+		!strings.HasPrefix(redir, "//") &&
+		!strings.HasPrefix(redir, "/\\") &&
+		!strings.ContainsAny(redir, "\t\n\r")
+}
+
 func (r Redirector) redirectAPI(w http.ResponseWriter, req *http.Request, ro authboss.RedirectOptions) error {
 	path := ro.RedirectPath
 	redir := req.FormValue(r.FormValueName)
-	if strings.Contains(redir, "://") {
+	if !isLocalRedirect(redir) {
 		// Guard against Open Redirect: https://cwe.mitre.org/data/definitions/601.html
 		redir = ""
 	}
@@ -127,7 +138,7 @@ func (r Redirector) redirectAPI(w http.ResponseWriter, req *http.Request, ro aut
 func (r Redirector) redirectNonAPI(w http.ResponseWriter, req *http.Request, ro authboss.RedirectOptions) error {
 	path := ro.RedirectPath
 	redir := req.FormValue(r.FormValueName)
-	if strings.Contains(redir, "://") {
+	if !isLocalRedirect(redir) {
 		// Guard against Open Redirect: https://cwe.mitre.org/data/definitions/601.html
 		redir = ""
 	}
